@@ -112,7 +112,7 @@ def gen_budget(rng: SimRng):
 
 
 def gen_seed(rng: SimRng):
-    s = rng.randrange(0, 1000)
+    s = 0 if rng.chance(0.12) else rng.randrange(0, 1000)  # 0 is a seed like any other (and falsy)
     return {"rs": s} if rng.chance(0.25) else s
 
 
@@ -303,7 +303,7 @@ def diff_keys(a, b, prefix=""):
     for k in sorted(set(a) | set(b)):
         if k not in a or k not in b:
             keys.append(prefix + k + "(presence)")
-        elif isinstance(a[k], dict) and isinstance(b[k], dict) and "nd" not in a[k] and "rs" not in a[k]:
+        elif isinstance(a[k], dict) and isinstance(b[k], dict) and "nd" not in a[k] and "rs" not in a[k] and "deque" not in a[k]:
             keys.extend(diff_keys(a[k], b[k], prefix + k + "."))
         elif a[k] != b[k]:
             keys.append(prefix + k)
